@@ -10,7 +10,7 @@ func c10Alphabet(thorough bool) []string {
 	a := []string{
 		"sub:A:e1f1:L1lc:lc:d", "sub:B:e1f1:L1lc:lc:d", "sub:A:e2f1:L2lc:lc:d", "sub:B:e2f1:L2lc:lc:d",
 		"bind:A:e1f1:L1lc:lc:d", "bind:B:e1f1:L2lc:lc:d", "bind:B:e1f1:L1lc:lc:d", "bind:A:e2f1:L2lc:lc:d",
-		"lsub:1:A:1", "lsub:1:B:1", "lbind:1:A:1", "lbind:1:B:1", "lsub:2:A:2",
+		"lsub:1:A:1", "lsub:1:B:1", "lbind:1:A:1", "lbind:1:B:1", "lsub:2:A:2", "lsub:1:B:2", "lbind:1:B:2",
 		"write:A:e1f1:L1lc:limit:ack:2", "write:B:e1f1:L2lc:limit:ack:2", "write:B:e1f1:L1lc:limit:ack:2", "write:A:e2f1:L2lc:limit:ack:2",
 		"disc:A", "disc:B", "entrm:A:1", "entrm:B:1", "entrm:A:2", "reconn:A", "reconn:B", "fire", "set:L1lc:2", "hs:A:B", "hs:B:A",
 		// re-announcement of an entity (also of one that is still known: its feature objects are replaced)
